@@ -131,8 +131,33 @@ def _has_abs(r):
         return False
 
 
+def _lift_single_ite(r):
+    """r with its ONE top-level conditional atom pulled outside: f(ite(c, A, B)) -> ite(c, f(A), f(B)); r itself when there is none or several"""
+    if not isinstance(r, Rat):
+        return r
+    ks = [k for k in r.atoms(deep=False) if alg.TABLE.atoms[k].kind == 'fn' and alg.TABLE.atoms[k].name == 'ite' and len(alg.TABLE.atoms[k].args) == 3
+          and all(isinstance(x, Rat) for x in alg.TABLE.atoms[k].args)]
+    if len(ks) != 1:
+        return r
+    at = alg.TABLE.atoms[ks[0]]
+    if r.equals(Rat.atom(at)):
+        return r
+    try:
+        ra, rb = alg.subst(r, {at.id: at.args[1]}), alg.subst(r, {at.id: at.args[2]})
+    except (ZeroDivisionError, RecursionError):
+        return r
+    return alg.opaque('ite', (at.args[0], ra, rb))
+
+
 def compare_values(a, b):
     """'equal' | 'different' | 'unknown' for arbitrary evaluator values"""
+    # the whole result of an opaque call of fixed arity against a tuple of that length: its items by position (`return f(...)` against
+    # `r = f(...); return r[0], r[1], r[2], r[3]`)
+    from .symval import _callv_items
+    if isinstance(a, CallV) and getattr(a, 'arity', None) and isinstance(b, Tup) and len(b.items) == a.arity:
+        a = Tup(_callv_items(a))
+    if isinstance(b, CallV) and getattr(b, 'arity', None) and isinstance(a, Tup) and len(a.items) == b.arity:
+        b = Tup(_callv_items(b))
     if isinstance(a, CallV):
         a = a.rat
     if isinstance(b, CallV):
@@ -144,7 +169,17 @@ def compare_values(a, b):
         if has_unknown(a) or has_unknown(b):
             r = alg.decide_equal(a, b)
             return 'equal' if r == 'equal' else 'unknown'
-        return alg.decide_equal(a, b)
+        r = alg.decide_equal(a, b)
+        if r != 'equal':
+            # X + ite(c, A, B) is ite(c, X + A, X + B): a conditional that sits inside a sum on one side and around it on the other
+            a2, b2 = _lift_single_ite(a), _lift_single_ite(b)
+            if a2 is not a or b2 is not b:
+                try:
+                    if alg.decide_equal(a2, b2) == 'equal':
+                        return 'equal'
+                except RecursionError:
+                    pass
+        return r
     if isinstance(a, Tup) and isinstance(b, Tup):
         if len(a.items) != len(b.items):
             return 'different'
